@@ -32,7 +32,7 @@ func (s *pathSummary) add(ok bool, detail string) {
 }
 
 func mineralBooks(p *Prog, r *Report, rule string) {
-	r.Rule(rule, "per-layer bookkeeping of the mineralisation routine, on every path of one iteration: the source term handed to the transport equals what the mineralised-amount counters and the dissolved-fertiliser counter gain minus the nitrification N2O; each organic pool loses exactly what its counter gains; a pool's decay is proportional to the pool of the same layer; in the warm arm the moisture factor is floored at 0 and capped at 1 before use; the loop starts at the top layer and indexes the layer as loop variable − 1", 6)
+	r.Rule(rule, "per-layer bookkeeping of the mineralisation routine, on every path of one iteration: the source term handed to the transport equals what the mineralised-amount counters and the dissolved-fertiliser counter gain minus the nitrification N2O; each organic pool loses exactly what its counter gains; a pool's decay is proportional to the pool of the same layer; in the warm arm the moisture factor is floored at 0 and capped at 1 before use; the rate coefficients stay in [0,1] over the admitted soil temperatures (interval evaluation); dissolved fertiliser grows by a fresh multiple of the undissolved remainder; the loop starts at the top layer and indexes the layer as loop variable − 1", 9)
 	fi := p.Funcs["hermes.mineral"]
 	x := walked(p, "hermes.mineral")
 	if fi == nil || x == nil {
@@ -136,6 +136,69 @@ func mineralBooks(p *Prog, r *Report, rule string) {
 			cap1 = true
 		}
 	}
+	// rate coefficients: decay = k(T) · pool · moisture factor with the factor in [0,1]: k(T) ≤ 1 over the soil
+	// temperatures the temperature rule admits, evaluated on the expression of THIS tree by interval arithmetic
+	for _, it := range []struct{ loc, pool string }{{"DTOTALN", "GlobalVarsMain.NAOS"}, {"DMINFOS", "GlobalVarsMain.NFOS"}} {
+		found := false
+		for _, e := range x.Events {
+			if e.Kind != "assign" || e.Root != it.loc || !e.Val.MentionsRoot(it.pool) {
+				continue
+			}
+			found = true
+			k := stripVersions(e.Val)
+			var pool, mf *Atom
+			for _, t := range k.T {
+				for _, f := range t.M {
+					if f.A.Kind == "cell" && f.A.Root == it.pool {
+						pool = f.A
+					}
+					if f.A.Kind == "cell" && f.A.Root == "MIRED" {
+						mf = f.A
+					}
+				}
+			}
+			if pool == nil || mf == nil {
+				r.Ob("rate:"+it.loc, p.Pos(e.Pos), false, "decay term is not rate × pool × moisture factor: "+clip(k.String(), 100))
+				continue
+			}
+			k = k.Div(PAtom(pool)).Div(PAtom(mf))
+			iv, err := evalIv(k, func(a *Atom) (Iv, bool) {
+				if a.Kind == "cell" && a.Root == "GlobalVarsMain.TD" {
+					return Iv{-40, 55}, true
+				}
+				return Iv{}, false
+			})
+			okK := err == nil && iv.Lo >= 0 && iv.Hi <= 1
+			es := ""
+			if err != nil {
+				es = err.Error()
+			}
+			r.Ob("rate:"+it.loc, p.Pos(e.Pos), okK, fmt.Sprintf("rate coefficient %s ∈ [%.3g, %.3g] for layer temperatures in [−40, 55] °C (must stay in [0,1]: with the moisture factor in [0,1] the pool then never loses more than it holds) %s", clip(k.String(), 90), iv.Lo, iv.Hi, es))
+		}
+		if !found {
+			r.Ob("rate:"+it.loc, pos, false, "no decay term "+it.loc+" found")
+		}
+	}
+	// dissolved fertiliser: on every path the counters grow by a fresh term k·(applied − dissolved), never by a value
+	// left in the long-lived per-layer array by an earlier call
+	stale := &pathSummary{}
+	for _, st := range ends {
+		if st.term == 1 || st.term == 2 {
+			continue
+		}
+		for _, it := range []struct{ cnt, arr, applied string }{{"GlobalVarsMain.UMS", "NitroSharedVars.DUMS", "GlobalVarsMain.DSUMM"}, {"GlobalVarsMain.NH4UMS", "NitroSharedVars.DNH4UMS", "GlobalVarsMain.NH4Sum"}} {
+			d := stripVersions(finalCell(st, it.cnt).Sub(cellP(it.cnt)))
+			fresh := !d.MentionsRoot(it.arr)
+			zero := d.Subst(func(a *Atom) (Poly, bool) {
+				if a.Kind == "cell" && a.Root == it.applied {
+					return cellP(it.cnt), true
+				}
+				return Poly{}, false
+			})
+			stale.add(fresh && zero.IsZero(), fmt.Sprintf("[%s] Δ%s = %s is not a fresh multiple of (%s − %s)", clip(guardKeys(st.guards), 80), shortRoot(it.cnt), clip(d.String(), 90), shortRoot(it.applied), shortRoot(it.cnt)))
+		}
+	}
+	rep("dissolved-fresh", stale, "dissolved/nitrified fertiliser grows by k·(applied − dissolved) computed in the same iteration")
 	r.Ob("moisture-factor", pos, floor0 && cap1, fmt.Sprintf("warm arm: moisture factor floored at 0: %v, capped at 1: %v (with the factor in [0,1] the decay coefficient stays below 1 for soil temperatures up to 55 °C, so a pool cannot lose more than it holds)", floor0, cap1))
 }
 
